@@ -151,6 +151,7 @@ Available == IsRead => LET u == resp.u  v == resp.v IN
      AllDocs       v = [body, keys]
      Changes       v = [body, filter : "" | bychannel | doc_ids, active]
      GetAttachment v = [meta]
+     BlipChanges / BlipRev v = [removals]  (v2, or v3+ with revocations=true: removals are announced and requested)
      BlipGetAttachment v = [during]  (asked while the rev message that lists the attachment is being handled, or after) *)
 Rd(surf, u, rev, v) == [surf |-> surf, u |-> u, rev |-> rev, v |-> v]
 
@@ -169,8 +170,10 @@ SeenByFeed(u, chs) ==   \* some revision that was current is in a channel u gets
      IF chs = {} THEN HasStar(u) \/ c \cap UserChans(u) # {}
      ELSE c \cap chs \cap (IF HasStar(u) THEN chs ELSE UserChans(u)) # {}
 
-(* replication protocol v3 does not announce plain removals (revocation messages replace them); tombstones are announced *)
-SeenByReplication(u) == SeenByFeed(u, {}) /\ (MayRead(u, cur) \/ Del(cur))
+(* replication: protocol v2 announces a document that left the puller's channels like any other change, v3+ only when the
+   puller asked for revocations; otherwise (v3+ default) plain removals are not announced; tombstones always are.  An
+   announced removal is requested by the puller and must be answered with the body-less removal stub. *)
+SeenByReplication(u, removals) == SeenByFeed(u, {}) /\ (removals \/ MayRead(u, cur) \/ Del(cur))
 
 (* the response the design intends *)
 Ideal(rd) ==
@@ -197,9 +200,9 @@ Ideal(rd) ==
     [] rd.surf = "GetAttachment" ->
          LET id == IF rd.rev = "" THEN cur ELSE rd.rev IN
          IF ~Del(id) /\ MayRead(u, id) THEN Mk(rd, "ok", {}, IF rd.v.meta THEN {} ELSE {id}, {}, FALSE) ELSE ErrResp(rd)
-    [] rd.surf = "BlipChanges" -> Mk(rd, "ok", {}, {}, {}, SeenByReplication(u))
+    [] rd.surf = "BlipChanges" -> Mk(rd, "ok", {}, {}, {}, SeenByReplication(u, rd.v.removals))
     [] rd.surf = "BlipRev" ->
-         LET ents == IF SeenByReplication(u) THEN {Ent(u, cur)} ELSE {} IN Mk(rd, "ok", Bodies(ents), {}, ents, FALSE)
+         LET ents == IF SeenByReplication(u, rd.v.removals) THEN {Ent(u, cur)} ELSE {} IN Mk(rd, "ok", Bodies(ents), {}, ents, FALSE)
     [] rd.surf = "BlipGetAttachment" ->   \* only the attachments of a revision that is being delivered to this connection
          \* (the allow-list entry is dropped when the gateway has processed the reply to the rev message, which races with
          \*  a request sent right after replying: "after" may still be answered - Available only demands "during")
@@ -263,8 +266,8 @@ BulkGet(u, atts)         == Read(Rd("BulkGet", u, "", [atts |-> atts]))
 AllDocs(u, body, keys)   == Read(Rd("AllDocs", u, "", [body |-> body, keys |-> keys]))
 Changes(u, v)            == Read(Rd("Changes", u, "", v))
 GetAttachment(u, rev, m) == Read(Rd("GetAttachment", u, rev, [meta |-> m]))
-BlipChanges(u)           == Blip /\ Read(Rd("BlipChanges", u, "", [x |-> 0]))
-BlipRev(u, delta)        == Blip /\ Read(Rd("BlipRev", u, "", [delta |-> delta]))
+BlipChanges(u, removals) == Blip /\ Read(Rd("BlipChanges", u, "", [removals |-> removals]))
+BlipRev(u, delta, removals) == Blip /\ Read(Rd("BlipRev", u, "", [delta |-> delta, removals |-> removals]))
 BlipGetAttachment(u, rev, during) == Blip /\ Read(Rd("BlipGetAttachment", u, rev, [during |-> during]))
 BlipGetRev(u)            == Blip /\ Read(Rd("BlipGetRev", u, "", [x |-> 0]))
 
@@ -276,8 +279,8 @@ Next ==
   \/ \E u \in Users, body \in B2, keys \in B2 : AllDocs(u, body, keys)
   \/ \E u \in Users, v \in ChangesV : Changes(u, v)
   \/ \E u \in Users, rev \in RevIds \cup {""}, m \in B2 : GetAttachment(u, rev, m)
-  \/ \E u \in Users : BlipChanges(u)
-  \/ \E u \in Users : BlipRev(u, FALSE)          \* delta = TRUE needs the enterprise build
+  \/ \E u \in Users, rm \in B2 : BlipChanges(u, rm)
+  \/ \E u \in Users, rm \in B2 : BlipRev(u, FALSE, rm)   \* delta = TRUE needs the enterprise build
   \/ \E u \in Users, rev \in RevIds, d \in B2 : BlipGetAttachment(u, rev, d)
   \/ \E u \in Users : BlipGetRev(u)
 
